@@ -457,6 +457,11 @@ Proof.
     destruct (nth_error (senders s) t) as [[| | |p c r|]|] eqn:Et; try discriminate.
     destruct (nth_error (conns s) c) as [k|] eqn:Ek; [|discriminate].
     destruct (lopen k && popen k); [discriminate|]. inversion H; subst; clear H.
+    assert (I2 : Inv fx (set_conns s (upd (conns s) c (close_conn k)))).
+    { apply Inv_conn_step with (k := k); auto.
+      destruct (Ic _ _ Ek) as [H1 H2 H3 H4 H5 H6 H7 H8]. cinv; discriminate. }
+    clear Ic It Ial Iw Ir Il Is Ila Icr Ifx Isn.
+    destruct I2 as [Ic It Ial Iw Ir Il Is Ila Icr Ifx Isn]. cbn in *.
     cinv. intros t1 q H1. apply nth_upd_cases in H1 as [[-> ->]|[_ H1]]; eauto.
     destruct r; exact Logic.I.
   - (* ASendIdOk *)
@@ -1347,4 +1352,15 @@ Proof.
                  destruct (ci_nacc _ _ _ _ _ _ (inv_conn _ _ I _ _ Hk) En) as [E|E]; rewrite Es in E; discriminate);
            eapply hmf_upd_le; [eassumption|]; unfold hmf, nmf; cbn; rewrite Hn; cbn; lia
        end.
+Qed.
+
+(* a Send that fails leaves its connection closed on this side (TCPConn.Send since e91db58) *)
+Theorem failed_send_closes fx s t p c r s' :
+  nth_error (senders s) t = Some (NSend p c r) -> step fx s (ASendFail t) = Some s' ->
+  exists k', nth_error (conns s') c = Some k' /\ lopen k' = false.
+Proof.
+  intros Ht H. cbn [step] in H. rewrite Ht in H.
+  destruct (nth_error (conns s) c) as [k|] eqn:Ek; [|discriminate].
+  destruct (lopen k && popen k); [discriminate|]. inversion H; subst; clear H. cbn.
+  exists (close_conn k). split; [|reflexivity]. apply nth_error_upd_eq. eapply nth_error_lt; eauto.
 Qed.
